@@ -390,7 +390,11 @@ func (p *Process) internalStop() error {
 }
 
 func (p *Process) stopProcess(cancelReadinessFuncs bool) error {
-	p.runCancelFn()
+	if cancelReadinessFuncs {
+		// only a stop requested from outside ends the run loop; after an internal
+		// stop (readiness probe failure) the restart policy still applies
+		p.runCancelFn()
+	}
 	if !p.isRunning() {
 		log.Debug().Msgf("process %s is in state %s not shutting down", p.getName(), p.getStatusName())
 		// prevent pending process from running
